@@ -103,8 +103,10 @@ META["C02"] = dict(
          "Ext.WgpuBinding.checkBindingUse for the variable at its @group/@binding (uniform vs storage and read-only-ness, view dimension / arrayness, sample kind, multisampling, depth, storage "
          "format and access incl. atomic, sampler comparison-ness) and by the per-entry rules of create_bind_group_layout; C02_counterexample proves the excluded case fails (recorded finding, "
          "pinned by the repo's own snapshot). Ext.WgpuBinding is a transcription of wgpu-core 24.0.5; the check ALSO hands every generated layout to the REAL "
-         "wgpu_core::validation::Interface::check_stage (Provided and Derived mode, no GPU) and treats its rejections as property failures. Visibility is C03.",
-    design_ref="DESIGN.md section 5 (C02)",
+         "wgpu_core::validation::Interface::check_stage (Provided and Derived mode, no GPU) and treats its rejections as property failures. Visibility is C03. "
+         "'Taken in pipeline-layout order' is the kernel-checked C02_pipeline (the pipeline layout holds, at index g, the layout of group g for every resource variable's @group); the "
+         "oracle presents each generated layout at the position the real create_pipeline_layout lists it.",
+    design_ref="DESIGN.md section 5 (C02), 13.15",
     note="Trusts: the transcription (validated per case against the real check_stage), resourceShapes (checked per validated module), the name identity naga StorageFormat = wgpu TextureFormat "
          "(checked by the oracle on every format). Open known findings: multisampled float textures, integer textures gathered through a filtering sampler.",
     technique="Lean 4 proof against a transcription of wgpu-core + the real wgpu-core check_stage as oracle + differential correspondence",
@@ -129,7 +131,8 @@ META["C16"] = dict(
     text="Kernel-checked C16_literal_roundtrip (for every source string and every way of escaping it that the Rust lexer allows, the literal token evaluates to exactly the source -- "
          "Ext.RustLex state machine, all strings, all escape choices), C16 (literal value = source / include_str! of exactly the path; create_shader_module template) and "
          "C16_include_only_source (include and embedded variants differ only in SOURCE). Partial: that prettyplease/rustfmt keep literal tokens is observed per case: the real token is "
-         "unescaped by the Lean RustLex AND by syn and both compared with the source; and the SOURCE constant of the compiled real module is read back at run time (length + hash = input).",
+         "unescaped by the Lean RustLex AND by syn and both compared with the source; and the SOURCE constant of the compiled real module is read back at run time (length + hash = input). Also run: the include variant in a directory where different files exist at the "
+         "include paths, a > 64 KiB source through the formatter-fallback path, and 6 concurrent threads on different large shaders with rustfmt on (each result must carry its own input).",
     design_ref="DESIGN.md section 5 (C16), 13.7",
     note="Trusts: Ext.RustLex transcription (validated against syn::LitStr::value on every literal); formatter behaviour observed.",
     technique="Lean 4 proof (round trip for all strings and escapings) + per-case unescape of the real literal + correspondence",
@@ -175,13 +178,17 @@ META["C07"] = dict(
 )
 META["C10"] = dict(
     text="Kernel-checked C10_leaf (for every glam-representable member type -- f32/i32/u32 scalars and vectors, square float matrices, fixed arrays of those at any depth -- the (alignment, size) "
-         "encase 0.10 assigns to the emitted Rust type equals the WGSL (AlignOf, SizeOf): Ext.Encase vs Ext.WgslLayout), C10_struct_algorithm and C10_offsets_partial (with natural naga "
-         "offsets the derive's offsets/size are the WGSL ones). The check ALSO writes every emitted ShaderType struct through the REAL encase::StorageBuffer with sentinel values and compares "
-         "byte length and field offsets with (a) the Lean transcription -- agreement on every struct validates Ext.Encase -- and (b) naga's WGSL layout. Open known findings: @size/@align not "
-         "forwarded, f64 unsupported by encase, builtin member dropped from dual-use structs.",
-    design_ref="DESIGN.md section 5 (C10)",
+         "encase 0.10 assigns to the emitted Rust type equals the WGSL (AlignOf, SizeOf): Ext.Encase vs Ext.WgslLayout) and C10_struct (nested structs, all depths: for every struct type reachable "
+         "from a variable whose members are such leaves, fixed arrays and nested structs of them, without builtin members and with the attribute-free WGSL layout recorded -- decidable predicate "
+         "C10S.natural -- the struct is emitted, every field's encase metadata, with nested items looked up IN THE EMITTED OUTPUT, is the member's WGSL (AlignOf, SizeOf), the offsets encase's derive "
+         "assigns are the WGSL offsets and its size is the WGSL size). encase's metadata is the fuel-free relation Encase.Meta (functional: Meta.det); the evaluator the check runs on real output, "
+         "Encase.structMeta, is sound for it (structMeta_sound), whence C10_struct_exec / C10_struct_exec_offsets, whose conclusions the driver evaluates on the REAL structs of every struct in the "
+         "domain (~1200 instances per quick run). The check ALSO writes every emitted ShaderType struct through the REAL encase::StorageBuffer with sentinel values and compares byte length and field "
+         "offsets with (a) the Lean transcription -- agreement on every struct validates Ext.Encase -- and (b) naga's WGSL layout; trailing runtime arrays (0/1/3 elements) are measured only. "
+         "Open known findings: @size/@align not forwarded, f64 unsupported by encase, builtin member dropped from dual-use structs.",
+    design_ref="DESIGN.md section 5 (C10), 13.14",
     note="Trusts: Ext.Encase / Ext.WgslLayout transcriptions (validated per struct against real encase bytes and per module against naga).",
-    technique="Lean 4 proof relative to transcriptions of encase and WGSL layout + real encase bytes as oracle",
+    technique="Lean 4 proof (induction over nesting depth) relative to transcriptions of encase and WGSL layout + conclusion evaluated on real output + real encase bytes as oracle",
 )
 META["C01"] = dict(
     text="Kernel-checked theorem C01_static: for every module and option set that meets four decidable WGSL-side conditions (namesBenignB: no WGSL name collides with a generated item, "
